@@ -23,7 +23,7 @@ func runC16WaitOptions(c *Ctx, w *ATWorld) {
 	// the lock retry settings as an application would have them (shipped: 10 times, 30 s apart): an error of the
 	// database is not a reason to send the statement again
 	oldLock := at.LockConfig
-	at.LockConfig = rm.LockConfig{RetryTimes: 4, RetryInterval: 400 * time.Millisecond}
+	at.LockConfig = rm.LockConfig{RetryTimes: 4, RetryInterval: time.Second}
 	defer func() { at.LockConfig = oldLock }()
 	n := 0
 	for _, suffix := range []string{" NOWAIT", " SKIP LOCKED", " /* matches nothing */", " WAIT 1"} {
@@ -122,7 +122,7 @@ func runC16WaitOptions(c *Ctx, w *ATWorld) {
 				class, detail = "crash", crash
 			case oerr != nil:
 				class, detail = "setup", oerr.Error()
-			case proxy != bare || tp > 700*time.Millisecond+tb:
+			case proxy != bare || tp > 2*time.Second+tb: // (generous: the check also runs on a loaded machine)
 				class = "wait_option_void_inside_global_tx"
 				if strings.Contains(suffix, "SKIP") {
 					class = "skip_locked_waits_inside_global_tx"
